@@ -31,6 +31,41 @@ def _hook_events(leaf: Any, s: SObj) -> List[Tuple[str, Any]]:
     return ev
 
 
+def _forwards_to_append(I: Interp, h: Any, s: Any, cfg: Config) -> bool:
+    """h is a local one-argument function that does nothing but hand its argument to the tag's own append."""
+    if not isinstance(h, SFunc) or h.closure is None:
+        return False
+    a = h.node.args
+    if len(a.posonlyargs + a.args) != 1 or a.vararg or a.kwarg or a.kwonlyargs:
+        return False
+
+    def body(run: Any) -> Tuple[Any, ...]:
+        x = SObj("value", ANY_VALUE_KINDS)
+        run.__dict__["x"] = x
+        try:
+            return ("return", run.ev.call_function(h, [x], {}))
+        except _Raise as r:
+            return ("raise", r.exc)
+
+    try:
+        leaves = I.explore(body, cfg)
+    except Unmodelled:
+        return False
+    for l in leaves:
+        calls = [e for e in l.effects if e.kind == "call"]
+        if l.kind != "return" or l.value is not None or len(calls) != 1:
+            return False
+        e = calls[0]
+        t = e.target
+        if not (isinstance(t, SFunc) and t.qual == "Tag.append" and (e.key is s or t.self_obj is s)):
+            return False
+        if not (e.value and len(e.value) == 1 and e.value[0] is l.run.__dict__["x"]) or (e.extra or {}).get("kwargs"):
+            return False
+        if any(x.kind in ("store_attr", "store_item", "mutcall", "global_store") for x in l.effects):
+            return False
+    return bool(leaves)
+
+
 def enter_obligations(ctx: Ctx, I: Interp) -> str:
     prog = ctx.prog
     where = f"{CORE}:Tag.__enter__"
@@ -78,7 +113,7 @@ def enter_obligations(ctx: Ctx, I: Interp) -> str:
         v = ev[inst[0]][1].value
         hw = isinstance(v, SFunc) and v.qual.endswith("handler_wrapper") and v.closure is not None
         h = v.closure.env.get("handler") if hw else None
-        ok_h = isinstance(h, SFunc) and h.qual == "Tag.append" and h.self_obj is s
+        ok_h = isinstance(h, SFunc) and ((h.qual == "Tag.append" and h.self_obj is s) or _forwards_to_append(I, h, s, cfg))
         ctx.check(hw and ok_h, "C17.enter", "the installed hook is wrap_displayhook_handler(self.append)", where, f"installs {short(v)} around {short(h)}",
                   f"the hook installed for the block is {short(v)} around {short(h)}: displayed values are not appended to this tag under the child rules")
         # the re-entry guard must have tested the saved field as None
@@ -99,6 +134,7 @@ def exit_obligations(ctx: Ctx, I: Interp, field: str) -> None:
     def mk(run: Any):
         s = SObj("self", {"TAG"})
         saved = SObj("saved_hook", {"CALLABLE"})
+        saved.meta["truth_unknown"] = True      # whatever was installed when the block was entered: possibly a falsy callable object
         s.attrs[field] = saved
         run.__dict__["s"] = (s, saved)
         b = {ps[0]: s}
@@ -166,6 +202,20 @@ def wrapper_table(ctx: Ctx, I: Interp, rule: str = "C17.wrap", only: Any = None)
     for l in I.explore(body, cfg):
         h, v = l.run.__dict__["o"]
         calls = [e for e in l.effects if e.kind == "call" and e.target is h]
+        plain = {k for k in v.kinds if k in ("STR", "INT", "FLOAT", "BYTES") and (only is None or k in only)}
+        if plain and l.kind != "raise" and len(calls) == 1 and calls[0].value and calls[0].value[0] is v:
+            # a plain value handed on as it is: the _repr_html_ test must have come out negative on this path, not be skipped by an
+            # earlier positive test of the builtin type (a str/int subclass may carry _repr_html_)
+            mine = [(a, val) for a, val in l.atoms if isinstance(a, tuple) and len(a) >= 3 and a[0] == "isinstance" and a[1] == v.uid]
+            repr_tested = any("ReprHtml" in str(a[2]).split("|") for a, _ in mine) or \
+                any(isinstance(a, tuple) and a[0] == "hasattr" and "_repr_html_" in str(a[-1]) for a, _ in l.atoms)
+            fast = [a for a, val in mine if (val is True or val == 0 or str(val).startswith("isinstance")) and not str(val).startswith("not ")
+                    and set(str(a[2]).split("|")) <= {"str", "int", "float", "bytes"}]
+            ctx.check(repr_tested or not fast, rule, "a plain value is only handed on unwrapped after the _repr_html_ test came out negative", where,
+                      f"{'|'.join(sorted(plain))}: accepted by isinstance {[a[2] for a in fast]} before any _repr_html_ test",
+                      f"a displayed value that is an instance of {[a[2] for a in fast]} is handed on as it is before it has been tested for _repr_html_: an object of a "
+                      f"str/number subclass that renders itself (markup text classes) is stored live instead of being kept as HTML(value._repr_html_())",
+                      witness="class M(str):\n    def _repr_html_(self): return '<b>x</b>'\nwith div() as d: M('x')")
         for k in sorted(v.kinds):
             if only is not None and k not in only:
                 seen.setdefault(k, "-")
